@@ -3,7 +3,8 @@
    (un)packers); proofs: theories/UnionProofs.v.  Tie to /repo: behavioural correspondence
    on every run (harness/props/c11.py). *)
 From Coq Require Import List String ZArith Bool.
-From Verif Require Import UnionModel UnionProofs UnionDeep UnionDeepProofs.
+From Verif Require Import UnionModel UnionProofs UnionDeep UnionDeepProofs UnionEmit K16Proofs.
+From VerifGen Require Import K16.
 Import ListNotations.
 Open Scope string_scope.
 Open Scope Z_scope.
@@ -203,6 +204,28 @@ Proof.
   - intros x E; inversion E; subst; clear E. intros _ l E; inversion E; subst; clear E.
     repeat constructor; simpl; auto; apply C.
 Qed.
+
+(* ---------- K16: the translated emission loop of UnionUnpackerBuilder._add_body ---------- *)
+(* K16.emit is re-translated from /repo on every run; the method text it describes computes union_dec *)
+Theorem C11_union_emit_correct : forall co ms d, Forall wf_mspec ms ->
+  run_lines co (emit ms) d = union_dec co (map to_member ms) d.
+Proof. exact emit_correct. Qed.
+Print Assumptions C11_union_emit_correct.
+
+(* hence the code the current source emits follows the reference on the stated domain *)
+Theorem C11_union_emitted_partial : forall co ms d, Forall wf_mspec ms ->
+  coherent (map to_member ms) d -> none_safe (map to_member ms) d = true -> no_shadow (map to_member ms) d = true ->
+  run_lines co (emit ms) d = ref_union co (map to_member ms) d.
+Proof. intros. rewrite emit_correct by assumption. apply union_decode_partial; assumption. Qed.
+Print Assumptions C11_union_emitted_partial.
+
+Example C11_emit_nonvacuous :
+  let ms := [SM KInt; NM 0 false w_date; SM KNone; NM 0 false w_date; NM 1 true Some] in
+  Forall wf_mspec ms /\
+  emit ms = [LValueType; LPlain (BIfRet (CVt (SM KInt))); LTry [BRet (NM 0 false w_date)]; LPlain (BIfRet (CVt (SM KNone)));
+             LPlain (BRet (NM 1 true Some)); LTryRet (SM KInt); LTryRet (SM KNone); LRaise] /\
+  run_lines w_co (emit ms) (UStr "2020-01-01") = Some (UObj "date" "datetime.date(2020, 1, 1)").
+Proof. cbv zeta. split; [repeat constructor; simpl; auto | split; reflexivity]. Qed.
 
 (* ---------- Optional ---------- *)
 
